@@ -21,6 +21,7 @@ WORKFLOWS = {
     'diamond': {'nodes': [{'id': 0, 'comp': 1, 'task_data': 3}, {'id': 1, 'comp': 4}, {'id': 2, 'comp': 2}, {'id': 3, 'comp': 2}],
                 'edges': [(0, 1, 2), (0, 2, 6), (1, 3, 1), (2, 3, 4)]},
     'single': {'nodes': [{'id': 0, 'comp': 3}], 'edges': []},
+    'triangle': {'nodes': [{'id': 0, 'comp': 2}, {'id': 1, 'comp': 2, 'task_data': 3}, {'id': 2, 'comp': 1}], 'edges': [(0, 1, 1), (1, 2, 2), (0, 2, 4)]},
     'mixed': {'nodes': [{'id': 0, 'comp': 0}, {'id': 1, 'comp': 1, 'task_data': 5}, {'id': 2, 'comp': 2}, {'id': 3, 'comp': 1}],
               'edges': [(0, 2, 1), (1, 2, 2)]},
 }
@@ -287,6 +288,23 @@ class Run:
                         self.fail.append(('C14', f"task {t.id}: transfer volume from {p.id} is {t.io.get(p.id)}, graph says {v_}"))
                 if t.ast != arrival:
                     self.fail.append(('C03', f"task {t.id}: recorded start {t.ast}, expected max(allocation {alloc_t}, last arrival) = {arrival}"))
+            # C14: the plan's own graph queries agree with the workflow (successors / predecessors of every task)
+            for o in sim.instrument.observations:
+                plan = getattr(o, 'plan', None)
+                if plan is None:
+                    continue
+                bygid = {t.graph_id: t for t in plan.tasks} if plan.tasks else {t.graph_id: t for t in tasks if t.id.startswith(o.name + '_') and '_ingest_' not in t.id}
+                for gid, t in bygid.items():
+                    want_s = sorted(d for s_, d, v in self.wf['edges'] if s_ == gid)
+                    want_p = sorted(s_ for s_, d, v in self.wf['edges'] if d == gid)
+                    try:
+                        got_s = sorted(x.graph_id for x in plan.get_task_successors(t))
+                        got_p = sorted(x.graph_id for x in plan.get_task_predecessors(t))
+                    except Exception as e:
+                        self.fail.append(('C14', f"plan of {o.name}: graph query failed for task {t.id}: {type(e).__name__}: {e}"))
+                        continue
+                    if got_s != want_s or got_p != want_p:
+                        self.fail.append(('C14', f"plan of {o.name}, task {t.id}: successors {got_s} / predecessors {got_p}, the workflow says {want_s} / {want_p}"))
             hot, cold = sim.buffer.hot[0], sim.buffer.cold[0]
             if hot.current_capacity != hot.total_capacity or cold.current_capacity != cold.total_capacity:
                 self.fail.append(('C07', f"finished but buffers hold data: hot {hot.current_capacity}/{hot.total_capacity}"))
@@ -377,7 +395,10 @@ def explore_static(props=None):
     assigns = {'all-on-m1': lambda i, n, ms: 'm1', 'round-robin': lambda i, n, ms: ms[i % len(ms)], 'all-on-m0': lambda i, n, ms: 'm0'}
     out, runs = [], 0
     for sc in SCENARIOS[:4]:
-        for wfname in ('chain', 'fork', 'diamond'):
+        for wfname in ('chain', 'fork', 'diamond', 'mixed'):
+            # ONE policy object serves the three runs of this (plan, workflow) pair - an experiment loop over static plans: the task
+            # ids are the same in the three runs, the planned machines are not
+            policy = DynamicSchedulingFromPlan()
             for an, assign in assigns.items():
                 runs += 1
                 d = tempfile.mkdtemp(prefix='topsim-simmon-', dir=os.environ.get('VERIF_SCRATCH', '/var/tmp'))
@@ -392,7 +413,7 @@ def explore_static(props=None):
                 try:
                     p = mkcfg(d, sc['obs'], WORKFLOWS[wfname], machines=MACHINES_TWIN, max_ingest=sc.get('max_ingest', 2))
                     env = simpy.Environment()
-                    sim = Simulation(env, p, Telescope, StaticPlanning(assign, WORKFLOWS[wfname]), 'static', DynamicSchedulingFromPlan(), timestamp=0)
+                    sim = Simulation(env, p, Telescope, StaticPlanning(assign, WORKFLOWS[wfname]), 'static', policy, timestamp=0)
                     sim.start(400)
                     planned = {}
                     for t in sim.cluster._tasks['finished']:
